@@ -435,6 +435,13 @@ def run(chk):
         raise MachineryError("OTSVG_nomove.cfg holds: GidIsPosition / DocRanges are vacuous")
     if len(res.records) < 500:
         raise MachineryError("too few OTSVG scenarios")
+    # the grouping into documents rests on the union-find: its own model, replayed call by call
+    from . import ds_check
+
+    bad, _ = ds_check.run(chk)
+    for b in bad[:3]:
+        chk.violation("glyphs that share a shape must land in one document, and the union-find that groups them answers "
+                      "wrongly: " + b, {"kind": "disjoint-set", "what": b})
     chk.exhaustive = True
     replay_model(chk, res.records, 100 if quick else 3000)
     random_formats(chk, 50 if quick else 1500)
